@@ -34,6 +34,8 @@ pub struct Cfg {
     pub consistent_locks: bool,
     /// weights: key leaf, hash leaf, time leaf
     pub leaf_w: [u32; 3],
+    /// chance (out of 3) that a key is an extended key (only with KeyStyle::Rich)
+    pub xpub_chance: usize,
 }
 
 impl Cfg {
@@ -52,6 +54,7 @@ impl Cfg {
             max_multi_n: 4,
             consistent_locks: false,
             leaf_w: [6, 2, 2],
+            xpub_chance: 1,
         }
     }
     pub fn sane(ctx: Ctx, size: usize) -> Cfg {
@@ -108,8 +111,8 @@ pub fn key_text(src: &mut Src, cfg: &Cfg, i: usize) -> String {
 
 pub fn pick_key(src: &mut Src, cfg: &Cfg, st: &mut State) -> String {
     let pool = if cfg.key_style == KeyStyle::Rich { N_POOL } else { keys::N_SINGLE };
-    let wide = cfg.key_style == KeyStyle::Rich && src.chance(1, 3);
-    let mut i = src.below(if wide { pool } else { keys::N_SINGLE.min(8) });
+    let wide = cfg.key_style == KeyStyle::Rich && src.chance(cfg.xpub_chance.min(3), 3);
+    let mut i = if wide { keys::N_SINGLE + src.below(pool - keys::N_SINGLE) } else { src.below(keys::N_SINGLE.min(8)) };
     if cfg.distinct_keys {
         let mut tries = 0;
         while st.used.contains(&i) && tries < pool {
@@ -473,9 +476,10 @@ pub fn gen_desc(src: &mut Src, kind: DescKind, mk: &dyn Fn(Ctx) -> Cfg) -> MDesc
     match kind {
         DescKind::Bare => {
             // bare scripts: library's standardness top-level check accepts pk / pkh / multi only
-            let n = match src.below(3) {
+            // (a bare `pkh(K)` is indistinguishable in text from the pkh descriptor, which has
+            // its own kind)
+            let n = match src.below(2) {
                 0 => Node::Check(b(Node::PkK(pick_key(src, &cfg, &mut st)))),
-                1 => Node::Check(b(Node::PkH(pick_key(src, &cfg, &mut st)))),
                 _ => {
                     let mut c2 = cfg.clone();
                     c2.max_multi_n = 3;
